@@ -138,7 +138,7 @@ def _compile_fragment(stmts, module, label, item_target=None, fn_locals=None):
     return f
 
 
-def cut(module, qualname):
+def cut(module, qualname, split_after=()):
     """module: the loaded repository module object; qualname: 'func' or 'Class.method'.
     Returns (segments, info): segments is the function body split at its top-level loops, in order:
         ('seg', fn)              fn(locals)            straight-line statements between loops
@@ -158,6 +158,7 @@ def cut(module, qualname):
     fn_locals = _names_stored(fn.body) | {a.arg for a in fn.args.args + fn.args.kwonlyargs}
     segments, cur, nloop = [], [], 0
     lines = []
+    found_split = set()
 
     def flush():
         nonlocal cur
@@ -181,7 +182,13 @@ def cut(module, qualname):
             nloop += 1
         else:
             cur.append(st)
+            if isinstance(st, ast.Assign) and any(isinstance(t, ast.Name) and t.id in split_after for t in st.targets):
+                flush()         # extra cut point after the assignment of a named local (state may be havoced there)
+                found_split.add([t.id for t in st.targets if isinstance(t, ast.Name)][0])
     flush()
+    for nm in split_after:
+        if nm not in found_split:
+            raise LoopNotFound(f'{qualname}: no top-level assignment to {nm}')
     info = {'function': label, 'loop_lines': lines, 'params': [a.arg for a in fn.args.args], 'loops': nloop}
     return segments, info
 
